@@ -158,6 +158,9 @@ def report(ctx: core.Ctx, results: list[dict], label: str = "") -> None:
             ctx.harness_error(h)
         if r["capped"]:
             ctx.harness_error(f"cap hit in {cfg}")
+        if r["executions"] and not r["complete_executions"]:
+            ctx.harness_error(f"vacuous search: no execution of {cfg} ran to "
+                              f"its end (all {r['executions']} cut off)")
         if r["complete"]:
             complete += 1
         else:
